@@ -5,6 +5,7 @@ import Driver.Tok
 import Driver.Registry
 import Driver.Table
 import Driver.Footnote
+import Driver.Url
 namespace Driver
 
 def handle (line : String) : String :=
@@ -16,6 +17,7 @@ def handle (line : String) : String :=
   | "registry" :: rest => handleRegistry rest
   | "table" :: rest => handleTable rest
   | "footnote" :: rest => handleFootnote rest
+  | "url" :: rest => handleUrl rest
   | _ => bad
 
 partial def loop (hin hout : IO.FS.Stream) : IO Unit := do
